@@ -225,7 +225,7 @@ theorem overfillNode_toList (cmp : K → K → Int) (id : Nat) (kvs : List (K ×
       | none => kids
       | some r => insertAt kids (lowerIdx amalgamLess cmp kv.1 kvs + 1) r).map toList)
       (insertAt kvs (lowerIdx amalgamLess cmp kv.1 kvs) kv) := by
-  simp only [overfillNode]
+  simp only [overfillNode, extraChildPos_eq]
   apply overfill_toList
   · rw [length_insertAt]; omega
   · rcases hk with ⟨rfl, rfl⟩ | ⟨r, rfl, hl⟩
